@@ -112,11 +112,38 @@ Lemma nth_error_new {A} (l : list A) v : nth_error (l ++ [v]) (List.length l) = 
 Proof. rewrite nth_error_app2 by lia. now rewrite Nat.sub_diag. Qed.
 
 (* ------------------------------------------------------------------ the family of objects *)
+Lemma nth_error_snoc {A} (l : list A) v t v0 :
+  nth_error (l ++ [v]) t = Some v0 ->
+  (t < List.length l /\ nth_error l t = Some v0) \/ (t = List.length l /\ v0 = v).
+Proof.
+  intros H. destruct (Nat.lt_ge_cases t (List.length l)) as [Hlt|Hge].
+  - left. split; [exact Hlt|]. now rewrite nth_error_app1 in H.
+  - right. rewrite nth_error_app2 in H by exact Hge.
+    destruct (t - List.length l) as [|k] eqn:E; cbn in H.
+    + split; [lia|congruence].
+    + destruct k; discriminate.
+Qed.
+
+Lemma nth_error_lt {A} (l : list A) i v : nth_error l i = Some v -> i < List.length l.
+Proof. intros H. apply nth_error_Some. congruence. Qed.
+
+Lemma updn_same {A} (f : nat -> A) i a : updn f i a i = a.
+Proof. unfold updn. now rewrite Nat.eqb_refl. Qed.
+
+Lemma updn_other {A} (f : nat -> A) i a j : j <> i -> updn f i a j = f j.
+Proof. intros H. unfold updn. destruct (Nat.eqb_spec j i); congruence. Qed.
+
+Local Arguments Nat.ltb : simpl never.
+Local Arguments Nat.leb : simpl never.
+Local Arguments Nat.sub : simpl never.
+Local Arguments Nat.add : simpl never.
+
 Section FamilyP.
   Variable V : Type.
-  Variables (AT AR ET ER KT KR : Type).
+  Variables (AT AR ET ER KT KR F : Type).
   Variables (kt_eqb : KT -> KT -> bool) (kr_eqb : KR -> KR -> bool).
   Variable cap : nat.
+  Variable site : copy_site.
   Variable pre_t : V -> AT -> pre ET.
   Variables (lkey_t skey_t : ET -> KT).
   Variable comp_t : V -> ET -> V.
@@ -126,53 +153,137 @@ Section FamilyP.
   Variable guard_m : V -> option exc.
   Variable mk_csr : V -> res V.
   Variables (csr2csc csc2csr : V -> V).
+  Variable refill : V -> F -> V.
 
   Hypothesis kd_t : forall v e0 e, kt_eqb (skey_t e0) (lkey_t e) = true -> comp_t v e0 = comp_t v e.
   Hypothesis kd_r : forall v e0 e, kr_eqb (skey_r e0) (lkey_r e) = true -> comp_r v e0 = comp_r v e.
+  (* the copy constructor gives a copy with another fill value a cache of its own *)
+  Hypothesis site_ok : copy_site_ok site = true.
+  (* self._tocsr() builds the matrix from coords and data only: the fill value does not enter *)
+  Hypothesis mk_csr_refill : forall v f, mk_csr (refill v f) = mk_csr v.
 
   Notation st := (st V KT KR).
-  Notation cache_t := (cache KT KR).
-  Notation step := (step V AT AR ET ER KT KR kt_eqb kr_eqb cap pre_t lkey_t skey_t comp_t
-                         pre_r lkey_r skey_r comp_r guard_m mk_csr csr2csc csc2csr).
-  Notation run := (run V AT AR ET ER KT KR kt_eqb kr_eqb cap pre_t lkey_t skey_t comp_t
-                       pre_r lkey_r skey_r comp_r guard_m mk_csr csr2csc csc2csr).
+  Notation dq_t := (dq KT KR).
+  Notation step := (step V AT AR ET ER KT KR F kt_eqb kr_eqb cap site pre_t lkey_t skey_t comp_t
+                         pre_r lkey_r skey_r comp_r guard_m mk_csr csr2csc csc2csr refill).
+  Notation run := (run V AT AR ET ER KT KR F kt_eqb kr_eqb cap site pre_t lkey_t skey_t comp_t
+                       pre_r lkey_r skey_r comp_r guard_m mk_csr csr2csc csc2csr refill).
   Notation csr_cached := (csr_cached V KT KR mk_csr csc2csr).
+  Notation new_fresh := (new_fresh V KT KR).
+  Notation new_shared := (new_shared V KT KR).
+  Notation set_deq := (set_deq V KT KR).
+  Notation set_attr := (set_attr V KT KR).
+  Notation emit := (emit V KT KR).
 
-  (* every memo entry of object t holds what the uncached computation on t would return *)
-  Definition cache_ok (vs : list V) (t : nat) (c : cache_t) : Prop :=
-    (forall k id, In (k, id) (c_tr c) ->
-       exists v e0, nth_error vs t = Some v /\ k = skey_t e0 /\ nth_error vs id = Some (comp_t v e0)) /\
-    (forall k id, In (k, id) (c_rs c) ->
-       exists v e0, nth_error vs t = Some v /\ k = skey_r e0 /\ nth_error vs id = Some (comp_r v e0)) /\
-    (forall id, c_csr c = Some id ->
-       exists v m, nth_error vs t = Some v /\ mk_csr v = Ok m /\ nth_error vs id = Some m) /\
-    (forall id, c_csc c = Some id ->
-       exists v m, nth_error vs t = Some v /\ mk_csr v = Ok m /\ nth_error vs id = Some (csr2csc m)
-                   /\ c_csr c <> None).
-
-  Definition wfc (vs : list V) (cs : nat -> cache_t) : Prop := forall t, cache_ok vs t (cs t).
-
-  Lemma cache_ok_ext vs x t c : cache_ok vs t c -> cache_ok (vs ++ x) t c.
+  Lemma fill_resets : cs_fill_resets site = true.
   Proof.
-    intros (H1 & H2 & H3 & H4). repeat split.
-    - intros k id Hin. destruct (H1 _ _ Hin) as (v & e0 & Ha & Hb & Hc).
-      exists v, e0. auto using nth_error_ext.
-    - intros k id Hin. destruct (H2 _ _ Hin) as (v & e0 & Ha & Hb & Hc).
-      exists v, e0. auto using nth_error_ext.
-    - intros id Hc. destruct (H3 _ Hc) as (v & m & Ha & Hb & Hd). exists v, m. auto using nth_error_ext.
-    - intros id Hc. destruct (H4 _ Hc) as (v & m & Ha & Hb & Hd & He). exists v, m. auto using nth_error_ext.
+    pose proof site_ok as H. unfold copy_site_ok in H.
+    apply andb_true_iff in H. destruct H as [_ H]. exact H.
   Qed.
 
-  Lemma wfc_ext vs x cs : wfc vs cs -> wfc (vs ++ x) cs.
-  Proof. intros H t. apply cache_ok_ext, H. Qed.
+  (* every memo entry holds what the uncached computation on a value v would return *)
+  Definition ent_t (vs : list V) (v : V) (l : list (KT * nat)) : Prop :=
+    forall k id, In (k, id) l -> exists e0, k = skey_t e0 /\ nth_error vs id = Some (comp_t v e0).
+  Definition ent_r (vs : list V) (v : V) (l : list (KR * nat)) : Prop :=
+    forall k id, In (k, id) l -> exists e0, k = skey_r e0 /\ nth_error vs id = Some (comp_r v e0).
+  Definition attr_ok (vs : list V) (v : V) (a : attrs) : Prop :=
+    (forall id, a_csr a = Some id -> exists m, mk_csr v = Ok m /\ nth_error vs id = Some m) /\
+    (forall id, a_csc a = Some id ->
+       exists m, mk_csr v = Ok m /\ nth_error vs id = Some (csr2csc m) /\ a_csr a <> None).
 
-  Lemma wfc_set vs cs t c : wfc vs cs -> cache_ok vs t c -> wfc vs (set_cache KT KR cs t c).
+  Definition obj_ok (s : st) (t : nat) (v : V) : Prop :=
+    cell s t < ncell s
+    /\ ent_t (vals s) v (d_tr (deqs s (cell s t)))
+    /\ ent_r (vals s) v (d_rs (deqs s (cell s t)))
+    /\ attr_ok (vals s) v (attr s t).
+
+  (* objects that share a cell (plain copies) have the same value *)
+  Definition wf (s : st) : Prop :=
+    (forall t v, nth_error (vals s) t = Some v -> obj_ok s t v)
+    /\ (forall t t' v v', nth_error (vals s) t = Some v -> nth_error (vals s) t' = Some v' ->
+                          cell s t = cell s t' -> v = v').
+
+  Lemma ent_t_ext vs x v l : ent_t vs v l -> ent_t (vs ++ x) v l.
+  Proof. intros H k id Hin. destruct (H _ _ Hin) as (e0 & -> & Hn). exists e0. auto using nth_error_ext. Qed.
+  Lemma ent_r_ext vs x v l : ent_r vs v l -> ent_r (vs ++ x) v l.
+  Proof. intros H k id Hin. destruct (H _ _ Hin) as (e0 & -> & Hn). exists e0. auto using nth_error_ext. Qed.
+  Lemma attr_ok_ext vs x v a : attr_ok vs v a -> attr_ok (vs ++ x) v a.
   Proof.
-    intros H Hc t'. unfold set_cache. destruct (Nat.eqb_spec t' t) as [->|]; [exact Hc|apply H].
+    intros [H1 H2]. split.
+    - intros id Hc. destruct (H1 _ Hc) as (m & Ha & Hb). exists m. auto using nth_error_ext.
+    - intros id Hc. destruct (H2 _ Hc) as (m & Ha & Hb & Hd). exists m. auto using nth_error_ext.
+  Qed.
+  Lemma attr_ok_none vs v : attr_ok vs v no_attrs.
+  Proof. split; cbn; intros; discriminate. Qed.
+  Lemma ent_t_nil vs v : ent_t vs v []. Proof. intros k id []. Qed.
+  Lemma ent_r_nil vs v : ent_r vs v []. Proof. intros k id []. Qed.
+
+  Lemma wf_emit s o : wf s -> wf (emit s o).
+  Proof. intros H. exact H. Qed.
+
+  Lemma wf_new_fresh s v b a :
+    wf s -> attr_ok (vals s ++ [v]) v a -> wf (fst (new_fresh s v b a)).
+  Proof.
+    intros [H1 H2] Ha. unfold new_fresh; cbn. split.
+    - intros t v0 Hn. cbn in Hn. apply nth_error_snoc in Hn. destruct Hn as [[Hlt Hn]|[-> ->]].
+      + destruct (H1 _ _ Hn) as (Hc & Ht & Hr & Hat). unfold obj_ok; cbn.
+        repeat (rewrite updn_other by lia).
+        repeat split; try lia; auto using ent_t_ext, ent_r_ext; apply attr_ok_ext; assumption.
+      + unfold obj_ok; cbn. repeat rewrite updn_same. cbn.
+        repeat split; try lia; auto using ent_t_nil, ent_r_nil; apply Ha.
+    - intros t t' v1 v2 Hn Hn'. cbn in Hn, Hn'. cbn.
+      apply nth_error_snoc in Hn. apply nth_error_snoc in Hn'.
+      destruct Hn as [[Hlt Hn]|[-> ->]], Hn' as [[Hlt' Hn']|[-> ->]].
+      + repeat (rewrite updn_other by lia). eauto.
+      + rewrite updn_same, updn_other by lia. intros E. destruct (H1 _ _ Hn) as (Hc & _). lia.
+      + rewrite updn_same, updn_other by lia. intros E. destruct (H1 _ _ Hn') as (Hc & _). lia.
+      + reflexivity.
   Qed.
 
-  Lemma empty_ok vs t : cache_ok vs t (empty_cache KT KR).
-  Proof. repeat split; cbn; intros; try contradiction; discriminate. Qed.
+  Lemma wf_new_shared s v t0 a :
+    wf s -> nth_error (vals s) t0 = Some v -> attr_ok (vals s ++ [v]) v a ->
+    wf (fst (new_shared s v (cell s t0) a)).
+  Proof.
+    intros [H1 H2] H0 Ha. unfold new_shared; cbn. split.
+    - intros t v0 Hn. cbn in Hn. apply nth_error_snoc in Hn. destruct Hn as [[Hlt Hn]|[-> ->]].
+      + destruct (H1 _ _ Hn) as (Hc & Ht & Hr & Hat). unfold obj_ok; cbn.
+        repeat (rewrite updn_other by lia).
+        repeat split; auto using ent_t_ext, ent_r_ext; apply attr_ok_ext; assumption.
+      + destruct (H1 _ _ H0) as (Hc & Ht & Hr & Hat). unfold obj_ok; cbn. repeat rewrite updn_same.
+        repeat split; auto using ent_t_ext, ent_r_ext; apply Ha.
+    - intros t t' v1 v2 Hn Hn'. cbn in Hn, Hn'. cbn.
+      apply nth_error_snoc in Hn. apply nth_error_snoc in Hn'.
+      destruct Hn as [[Hlt Hn]|[-> ->]], Hn' as [[Hlt' Hn']|[-> ->]].
+      + repeat (rewrite updn_other by lia). eauto.
+      + rewrite updn_same, updn_other by lia. intros E. eapply H2; eauto.
+      + rewrite updn_same, updn_other by lia. intros E. symmetry. eapply H2; eauto.
+      + reflexivity.
+  Qed.
+
+  Lemma wf_set_deq s t0 v c (d : dq_t) :
+    wf s -> nth_error (vals s) t0 = Some v -> c = cell s t0 ->
+    ent_t (vals s) v (d_tr d) -> ent_r (vals s) v (d_rs d) -> wf (set_deq s c d).
+  Proof.
+    intros [H1 H2] H0 -> Ht Hr. split.
+    - intros t v0 Hn. cbn in Hn. destruct (H1 _ _ Hn) as (Hc & Ht0 & Hr0 & Hat).
+      unfold obj_ok; cbn. destruct (Nat.eq_dec (cell s t) (cell s t0)) as [E|E].
+      + rewrite E, updn_same. assert (v0 = v) by (eapply H2; eauto). subst.
+        split; [lia|]. split; [assumption|]. split; assumption.
+      + rewrite updn_other by exact E. split; [assumption|]. split; [assumption|]. split; assumption.
+    - exact H2.
+  Qed.
+
+  Lemma wf_set_attr s t0 v a :
+    wf s -> nth_error (vals s) t0 = Some v -> attr_ok (vals s) v a -> wf (set_attr s t0 a).
+  Proof.
+    intros [H1 H2] H0 Ha. split.
+    - intros t v0 Hn. cbn in Hn. destruct (H1 _ _ Hn) as (Hc & Ht0 & Hr0 & Hat).
+      unfold obj_ok; cbn. destruct (Nat.eq_dec t t0) as [->|E].
+      + rewrite updn_same. rewrite H0 in Hn. injection Hn as <-.
+        split; [assumption|]. split; [assumption|]. split; assumption.
+      + rewrite updn_other by exact E. split; [assumption|]. split; [assumption|]. split; assumption.
+    - exact H2.
+  Qed.
 
   (* observable agreement of two outputs *)
   Definition orel (vc vu : list V) (oc ou : out) : Prop :=
@@ -196,37 +307,17 @@ Section FamilyP.
     Forall2 (orel vc vu) l1 l2 -> Forall2 (orel (vc ++ x) (vu ++ y)) l1 l2.
   Proof. induction 1; constructor; auto using orel_ext. Qed.
 
-  Lemma R_finish sc su x y csc csu oc ou :
-    R sc su -> orel (vals sc ++ x) (vals su ++ y) oc ou ->
-    R (finish V KT KR sc (vals sc ++ x) csc oc) (finish V KT KR su (vals su ++ y) csu ou).
+  (* one call on both sides: the heaps grew, one output each, the outputs agree *)
+  Lemma R_step (sc su sc' su' : st) x y oc ou :
+    R sc su -> vals sc' = vals sc ++ x -> vals su' = vals su ++ y ->
+    outs sc' = outs sc ++ [oc] -> outs su' = outs su ++ [ou] ->
+    orel (vals sc') (vals su') oc ou -> R sc' su'.
   Proof.
-    intros [HF (v0 & Ha & Hb)] Ho. split.
-    - cbn. apply Forall2_app; [now apply Forall2_orel_ext|]. constructor; [exact Ho|constructor].
-    - exists v0. unfold finish; cbn [vals]. split; apply nth_error_ext; assumption.
-  Qed.
-
-  Lemma R_finish0 sc su csc csu oc ou :
-    R sc su -> orel (vals sc) (vals su) oc ou ->
-    R (finish V KT KR sc (vals sc) csc oc) (finish V KT KR su (vals su) csu ou).
-  Proof.
-    intros HR Ho. pose proof (R_finish sc su [] [] csc csu oc ou HR) as H.
-    rewrite !app_nil_r in H. now apply H.
-  Qed.
-
-  Lemma R_finish_l sc su x csc csu oc ou :
-    R sc su -> orel (vals sc ++ x) (vals su) oc ou ->
-    R (finish V KT KR sc (vals sc ++ x) csc oc) (finish V KT KR su (vals su) csu ou).
-  Proof.
-    intros HR Ho. pose proof (R_finish sc su x [] csc csu oc ou HR) as H.
-    rewrite !app_nil_r in H. now apply H.
-  Qed.
-
-  Lemma R_finish_r sc su y csc csu oc ou :
-    R sc su -> orel (vals sc) (vals su ++ y) oc ou ->
-    R (finish V KT KR sc (vals sc) csc oc) (finish V KT KR su (vals su ++ y) csu ou).
-  Proof.
-    intros HR Ho. pose proof (R_finish sc su [] y csc csu oc ou HR) as H.
-    rewrite !app_nil_r in H. now apply H.
+    intros [HF (v0 & Ha & Hb)] Hx Hy Hoc Hou Ho. split.
+    - rewrite Hoc, Hou. apply Forall2_app.
+      + rewrite Hx, Hy. now apply Forall2_orel_ext.
+      + constructor; [exact Ho|constructor].
+    - exists v0. rewrite Hx, Hy. auto using nth_error_ext.
   Qed.
 
   Lemma Forall2_nth {A B} (P : A -> B -> Prop) l1 l2 i :
@@ -255,157 +346,214 @@ Section FamilyP.
       destruct oc, ou; cbn in H; try contradiction; auto.
   Qed.
 
-  Definition wf (s : st) : Prop := wfc (vals s) (caches s).
-
   (* self.tocsr() in caching mode *)
   Lemma csr_cached_ok (s : st) t v :
     wf s -> nth_error (vals s) t = Some v ->
     match csr_cached s t v with
-    | (r, vs, cs) =>
-      (exists x, vs = vals s ++ x) /\ wfc vs cs /\
+    | (r, s1) =>
+      (exists x, vals s1 = vals s ++ x) /\ outs s1 = outs s /\ wf s1 /\
       match r, mk_csr v with
-      | OObj id, Ok m => nth_error vs id = Some m /\ c_csr (cs t) = Some id
-      | ORaise e, Raise e' => e = e' /\ vs = vals s /\ cs = caches s
+      | OObj id, Ok m => nth_error (vals s1) id = Some m /\ a_csr (attr s1 t) = Some id
+      | ORaise e, Raise e' => e = e' /\ s1 = s
       | _, _ => False
       end
     end.
   Proof.
     intros Hwf Hv. unfold csr_cached.
-    pose proof (Hwf t) as (H1 & H2 & H3 & H4).
-    destruct (c_csr (caches s t)) as [id|] eqn:Ecsr.
-    - destruct (H3 _ eq_refl) as (v' & m & Ha & Hb & Hc).
-      rewrite Hv in Ha. injection Ha as <-. rewrite Hb.
-      split; [exists []; now rewrite app_nil_r|]. split; [exact Hwf|]. auto.
-    - destruct (c_csc (caches s t)) as [idc|] eqn:Ecsc.
-      + destruct (H4 _ eq_refl) as (v' & m & _ & _ & _ & Hne). congruence.
+    pose proof (proj1 Hwf _ _ Hv) as (Hc & Ht & Hr & (Ha1 & Ha2)).
+    destruct (a_csr (attr s t)) as [id|] eqn:Ecsr.
+    - destruct (Ha1 _ eq_refl) as (m & Hm & Hid). rewrite Hm.
+      split; [exists []; now rewrite app_nil_r|]. auto.
+    - destruct (a_csc (attr s t)) as [idc|] eqn:Ecsc.
+      + destruct (Ha2 _ eq_refl) as (m & _ & _ & Hne). congruence.
       + destruct (mk_csr v) as [m|e] eqn:Em.
-        * unfold alloc; cbn.
-          split; [now eexists|]. split.
-          -- apply wfc_set; [now apply wfc_ext|].
-             repeat split; cbn.
-             ++ intros k id Hin. destruct (H1 _ _ Hin) as (v' & e0 & Ha & Hb & Hc).
-                exists v', e0. auto using nth_error_ext.
-             ++ intros k id Hin. destruct (H2 _ _ Hin) as (v' & e0 & Ha & Hb & Hc).
-                exists v', e0. auto using nth_error_ext.
-             ++ intros id [= <-]. exists v, m. split; [now apply nth_error_ext|]. split; [exact Em|].
-                apply nth_error_new.
-             ++ intros id Hx; try rewrite Ecsc in Hx; discriminate.
-          -- split; [apply nth_error_new|]. unfold set_cache. now rewrite Nat.eqb_refl.
-        * split; [exists []; now rewrite app_nil_r|]. split; [exact Hwf|]. auto.
+        * unfold new_fresh; cbn. split; [now eexists|]. split; [reflexivity|]. split.
+          -- eapply (wf_set_attr (fst (new_fresh s m false no_attrs)) t v).
+             ++ apply wf_new_fresh; [exact Hwf|apply attr_ok_none].
+             ++ cbn. now apply nth_error_ext.
+             ++ split; cbn.
+                ** intros id [= <-]. exists m. split; [exact Em|apply nth_error_new].
+                ** intros id Hx. discriminate.
+          -- split; [apply nth_error_new|]. now rewrite updn_same.
+        * split; [exists []; now rewrite app_nil_r|]. auto.
   Qed.
 
-  Ltac same_val Hv Ha :=
-    rewrite Hv in Ha; injection Ha as <-.
+  (* R_step with the heap extensions x (cached side) and y (uncached side); leaves the agreement of the outputs *)
+  Ltac rstep x y :=
+    eapply (R_step _ _ _ _ x y);
+    [ eassumption
+    | cbn; rewrite ?app_nil_r; reflexivity
+    | cbn; rewrite ?app_nil_r; reflexivity
+    | cbn; reflexivity
+    | cbn; reflexivity
+    | cbn ].
+
+  (* in the run that starts from an array without a cache no object ever caches *)
+  Definition allunc (s : st) : Prop := forall t, flag s t = false.
+
+  Lemma allunc_fresh s v a : allunc s -> allunc (fst (new_fresh s v false a)).
+  Proof. intros H t. cbn. unfold updn. destruct (Nat.eqb t (List.length (vals s))); [reflexivity|apply H]. Qed.
+
+  Lemma step_allunc s tg o : allunc s -> allunc (step s tg o).
+  Proof.
+    intros HU. unfold step.
+    destruct (resolve V KT KR s tg) as [t|]; [|exact HU].
+    destruct (nth_error (vals s) t) as [v|]; [|exact HU].
+    rewrite (HU t).
+    destruct o as [a|a| | |f| |].
+    - destruct (pre_t v a); try exact HU. exact (allunc_fresh s _ _ HU).
+    - destruct (pre_r v a); try exact HU. exact (allunc_fresh s _ _ HU).
+    - destruct (guard_m v); [exact HU|]. destruct (mk_csr v); [exact (allunc_fresh s _ _ HU)|exact HU].
+    - destruct (guard_m v); [exact HU|]. destruct (mk_csr v); [exact (allunc_fresh s _ _ HU)|exact HU].
+    - exact (allunc_fresh s _ _ HU).
+    - exact (allunc_fresh s _ _ HU).
+    - exact HU.
+  Qed.
+
+  (* both sides compute afresh *)
+  Lemma both_fresh sc su v b :
+    wf sc -> R sc su ->
+    wf (emit (fst (new_fresh sc v b no_attrs)) (OObj (List.length (vals sc))))
+    /\ R (emit (fst (new_fresh sc v b no_attrs)) (OObj (List.length (vals sc))))
+         (emit (fst (new_fresh su v false no_attrs)) (OObj (List.length (vals su)))).
+  Proof.
+    intros Hwf HR. split.
+    - apply wf_emit. apply wf_new_fresh; [exact Hwf|apply attr_ok_none].
+    - rstep [v] [v]. exists v. split; apply nth_error_new.
+  Qed.
 
   Lemma step_ok sc su tg o :
-    wf sc -> R sc su -> wf (step true sc tg o) /\ R (step true sc tg o) (step false su tg o).
+    wf sc -> R sc su -> allunc su -> wf (step sc tg o) /\ R (step sc tg o) (step su tg o).
   Proof.
-    intros Hwf HR. unfold step.
+    intros Hwf HR HU. unfold step.
     pose proof (resolve_rel sc su tg HR) as Hres.
     destruct (resolve V KT KR sc tg) as [tc|], (resolve V KT KR su tg) as [tu|]; try contradiction.
-    2:{ split; [exact Hwf|]. apply R_finish0; cbn; auto. }
-    destruct Hres as (v & Hvc & Hvu). rewrite Hvc, Hvu.
-    pose proof (Hwf tc) as (H1 & H2 & H3 & H4).
-    destruct o as [a|a| |].
+    2:{ split; [exact Hwf|]. rstep (@nil V) (@nil V). exact I. }
+    destruct Hres as (v & Hvc & Hvu). rewrite Hvc, Hvu. rewrite (HU tu).
+    pose proof (proj1 Hwf _ _ Hvc) as (Hc & Ht & Hr & (Ha1 & Ha2)).
+    assert (Hne : tc <> List.length (vals sc)) by (apply nth_error_lt in Hvc; lia).
+    destruct o as [a|a| | |f| |].
     - (* transpose *)
       destruct (pre_t v a) as [e| |env].
-      + split; [exact Hwf|]. apply R_finish0; cbn; auto.
-      + split; [exact Hwf|]. apply R_finish0; cbn; eauto.
-      + destruct (dq_lookup kt_eqb (c_tr (caches sc tc)) (lkey_t env)) as [id|] eqn:El.
+      + split; [exact Hwf|]. rstep (@nil V) (@nil V). reflexivity.
+      + split; [exact Hwf|]. rstep (@nil V) (@nil V). eauto.
+      + destruct (flag sc tc); [|exact (both_fresh sc su _ _ Hwf HR)].
+        destruct (dq_lookup kt_eqb (d_tr (deqs sc (cell sc tc))) (lkey_t env)) as [id|] eqn:El.
         * apply dq_lookup_some in El. destruct El as (k' & Hin & Hk).
-          destruct (H1 _ _ Hin) as (v' & e0 & Ha & -> & Hc). same_val Hvc Ha.
-          unfold alloc; cbn. split; [exact Hwf|].
-          apply R_finish_r; auto. cbn. exists (comp_t v e0). split; [exact Hc|].
-          rewrite (kd_t v e0 env Hk). apply nth_error_new.
-        * unfold alloc; cbn. split.
-          -- unfold wf; cbn. apply wfc_set; [now apply wfc_ext|].
-             repeat split; cbn.
-             ++ intros k id Hin. apply dq_append_in in Hin. destruct Hin as [Hin|[= -> ->]].
-                ** destruct (H1 _ _ Hin) as (v' & e0 & Ha & Hb & Hc). exists v', e0. auto using nth_error_ext.
-                ** exists v, env. split; [now apply nth_error_ext|]. split; [reflexivity|apply nth_error_new].
-             ++ intros k id Hin. destruct (H2 _ _ Hin) as (v' & e0 & Ha & Hb & Hc).
-                exists v', e0. auto using nth_error_ext.
-             ++ intros id Hc. destruct (H3 _ Hc) as (v' & m & Ha & Hb & Hd). exists v', m. auto using nth_error_ext.
-             ++ intros id Hc. destruct (H4 _ Hc) as (v' & m & Ha & Hb & Hd & He).
-                exists v', m. auto using nth_error_ext.
-          -- apply R_finish; auto. cbn. exists (comp_t v env). split; apply nth_error_new.
+          destruct (Ht _ _ Hin) as (e0 & -> & Hid).
+          unfold new_fresh. split; [exact Hwf|].
+          rstep (@nil V) [comp_t v env].
+          exists (comp_t v e0). split; [exact Hid|]. rewrite (kd_t v e0 env Hk). apply nth_error_new.
+        * unfold new_fresh. split.
+          -- eapply (wf_set_deq (fst (new_fresh sc (comp_t v env) true no_attrs)) tc v).
+             ++ apply wf_new_fresh; [exact Hwf|apply attr_ok_none].
+             ++ cbn. now apply nth_error_ext.
+             ++ cbn. now rewrite updn_other.
+             ++ cbn. intros k id Hin. apply dq_append_in in Hin. destruct Hin as [Hin|[= -> ->]].
+                ** destruct (Ht _ _ Hin) as (e0 & -> & Hid). exists e0. auto using nth_error_ext.
+                ** exists env. split; [reflexivity|apply nth_error_new].
+             ++ cbn. now apply ent_r_ext.
+          -- rstep [comp_t v env] [comp_t v env].
+             exists (comp_t v env). split; apply nth_error_new.
     - (* reshape *)
       destruct (pre_r v a) as [e| |env].
-      + split; [exact Hwf|]. apply R_finish0; cbn; auto.
-      + split; [exact Hwf|]. apply R_finish0; cbn; eauto.
-      + destruct (dq_lookup kr_eqb (c_rs (caches sc tc)) (lkey_r env)) as [id|] eqn:El.
+      + split; [exact Hwf|]. rstep (@nil V) (@nil V). reflexivity.
+      + split; [exact Hwf|]. rstep (@nil V) (@nil V). eauto.
+      + destruct (flag sc tc); [|exact (both_fresh sc su _ _ Hwf HR)].
+        destruct (dq_lookup kr_eqb (d_rs (deqs sc (cell sc tc))) (lkey_r env)) as [id|] eqn:El.
         * apply dq_lookup_some in El. destruct El as (k' & Hin & Hk).
-          destruct (H2 _ _ Hin) as (v' & e0 & Ha & -> & Hc). same_val Hvc Ha.
-          unfold alloc; cbn. split; [exact Hwf|].
-          apply R_finish_r; auto. cbn. exists (comp_r v e0). split; [exact Hc|].
-          rewrite (kd_r v e0 env Hk). apply nth_error_new.
-        * unfold alloc; cbn. split.
-          -- unfold wf; cbn. apply wfc_set; [now apply wfc_ext|].
-             repeat split; cbn.
-             ++ intros k id Hin. destruct (H1 _ _ Hin) as (v' & e0 & Ha & Hb & Hc).
-                exists v', e0. auto using nth_error_ext.
-             ++ intros k id Hin. apply dq_append_in in Hin. destruct Hin as [Hin|[= -> ->]].
-                ** destruct (H2 _ _ Hin) as (v' & e0 & Ha & Hb & Hc). exists v', e0. auto using nth_error_ext.
-                ** exists v, env. split; [now apply nth_error_ext|]. split; [reflexivity|apply nth_error_new].
-             ++ intros id Hc. destruct (H3 _ Hc) as (v' & m & Ha & Hb & Hd). exists v', m. auto using nth_error_ext.
-             ++ intros id Hc. destruct (H4 _ Hc) as (v' & m & Ha & Hb & Hd & He).
-                exists v', m. auto using nth_error_ext.
-          -- apply R_finish; auto. cbn. exists (comp_r v env). split; apply nth_error_new.
+          destruct (Hr _ _ Hin) as (e0 & -> & Hid).
+          unfold new_fresh. split; [exact Hwf|].
+          rstep (@nil V) [comp_r v env].
+          exists (comp_r v e0). split; [exact Hid|]. rewrite (kd_r v e0 env Hk). apply nth_error_new.
+        * unfold new_fresh. split.
+          -- eapply (wf_set_deq (fst (new_fresh sc (comp_r v env) true no_attrs)) tc v).
+             ++ apply wf_new_fresh; [exact Hwf|apply attr_ok_none].
+             ++ cbn. now apply nth_error_ext.
+             ++ cbn. now rewrite updn_other.
+             ++ cbn. now apply ent_t_ext.
+             ++ cbn. intros k id Hin. apply dq_append_in in Hin. destruct Hin as [Hin|[= -> ->]].
+                ** destruct (Hr _ _ Hin) as (e0 & -> & Hid). exists e0. auto using nth_error_ext.
+                ** exists env. split; [reflexivity|apply nth_error_new].
+          -- rstep [comp_r v env] [comp_r v env].
+             exists (comp_r v env). split; apply nth_error_new.
     - (* tocsr *)
       destruct (guard_m v) as [e|].
-      { split; [exact Hwf|]. apply R_finish0; cbn; auto. }
-      pose proof (csr_cached_ok sc tc v Hwf Hvc) as Hc.
-      destruct (csr_cached sc tc v) as [[r vs] cs]. destruct Hc as ((x & ->) & Hwf' & Hr).
+      { split; [exact Hwf|]. rstep (@nil V) (@nil V). reflexivity. }
+      destruct (flag sc tc).
+      2:{ destruct (mk_csr v) as [m|e']; [exact (both_fresh sc su _ _ Hwf HR)|].
+          split; [exact Hwf|]. rstep (@nil V) (@nil V). reflexivity. }
+      pose proof (csr_cached_ok sc tc v Hwf Hvc) as Hcs.
+      destruct (csr_cached sc tc v) as [r s1]. destruct Hcs as ((x & Hx) & Ho & Hwf' & Hres).
       destruct r as [e|id|], (mk_csr v) as [m|e'] eqn:Em; try contradiction.
-      + destruct Hr as (-> & Hx & ->). split; [exact Hwf'|]. apply R_finish_l; cbn; auto.
-      + destruct Hr as (Hid & _). unfold alloc; cbn. split; [exact Hwf'|].
-        apply R_finish; auto. cbn. exists m. split; [exact Hid|apply nth_error_new].
+      + destruct Hres as (-> & ->). split; [exact Hwf|]. rstep (@nil V) (@nil V). reflexivity.
+      + destruct Hres as (Hid & _). unfold new_fresh. split; [exact Hwf'|].
+        eapply (R_step sc su _ _ x [m]); [exact HR|exact Hx|reflexivity|cbn; now rewrite Ho|reflexivity|].
+        cbn. exists m. split; [exact Hid|apply nth_error_new].
     - (* tocsc *)
       destruct (guard_m v) as [e|].
-      { split; [exact Hwf|]. apply R_finish0; cbn; auto. }
-      destruct (c_csc (caches sc tc)) as [id|] eqn:Ecsc.
-      { destruct (H4 _ eq_refl) as (v' & m & Ha & Hb & Hd & _). same_val Hvc Ha. rewrite Hb.
-        unfold alloc; cbn. split; [exact Hwf|]. apply R_finish_r; auto. cbn.
-        exists (csr2csc m). split; [exact Hd|apply nth_error_new]. }
-      destruct (c_csr (caches sc tc)) as [idr|] eqn:Ecsr.
-      { destruct (H3 _ eq_refl) as (v' & m & Ha & Hb & Hd). same_val Hvc Ha. rewrite Hb, Hd.
-        unfold alloc; cbn. split.
-        - unfold wf; cbn. apply wfc_set; [now apply wfc_ext|].
-          repeat split; cbn.
-          + intros k id Hin. destruct (H1 _ _ Hin) as (v' & e0 & Ha & Hb' & Hc).
-            exists v', e0. auto using nth_error_ext.
-          + intros k id Hin. destruct (H2 _ _ Hin) as (v' & e0 & Ha & Hb' & Hc).
-            exists v', e0. auto using nth_error_ext.
-          + try rewrite Ecsr. intros id [= <-]. exists v, m. auto using nth_error_ext.
-          + intros id [= <-]. exists v, m. split; [now apply nth_error_ext|]. split; [exact Hb|].
-            split; [apply nth_error_new|]. try rewrite Ecsr. discriminate.
-        - apply R_finish; auto. cbn. exists (csr2csc m). split; apply nth_error_new. }
-      pose proof (csr_cached_ok sc tc v Hwf Hvc) as Hc.
-      destruct (csr_cached sc tc v) as [[r vs] cs]. destruct Hc as ((x & ->) & Hwf' & Hr).
+      { split; [exact Hwf|]. rstep (@nil V) (@nil V). reflexivity. }
+      destruct (flag sc tc).
+      2:{ destruct (mk_csr v) as [m|e']; [exact (both_fresh sc su _ _ Hwf HR)|].
+          split; [exact Hwf|]. rstep (@nil V) (@nil V). reflexivity. }
+      destruct (a_csc (attr sc tc)) as [id|] eqn:Ecsc.
+      { destruct (Ha2 _ eq_refl) as (m & Hm & Hid & _). rewrite Hm.
+        unfold new_fresh. split; [exact Hwf|].
+        rstep (@nil V) [csr2csc m].
+        exists (csr2csc m). split; [exact Hid|apply nth_error_new]. }
+      destruct (a_csr (attr sc tc)) as [idr|] eqn:Ecsr.
+      { destruct (Ha1 _ eq_refl) as (m & Hm & Hid). rewrite Hm, Hid.
+        unfold new_fresh. split.
+        - eapply (wf_set_attr (fst (new_fresh sc (csr2csc m) false no_attrs)) tc v).
+          + apply wf_new_fresh; [exact Hwf|apply attr_ok_none].
+          + cbn. now apply nth_error_ext.
+          + split; cbn.
+            * intros id [= <-]. exists m. split; [exact Hm|now apply nth_error_ext].
+            * intros id [= <-]. exists m. split; [exact Hm|]. split; [apply nth_error_new|discriminate].
+        - rstep [csr2csc m] [csr2csc m].
+          exists (csr2csc m). split; apply nth_error_new. }
+      pose proof (csr_cached_ok sc tc v Hwf Hvc) as Hcs.
+      destruct (csr_cached sc tc v) as [r s1]. destruct Hcs as ((x & Hx) & Ho & Hwf' & Hres).
       destruct r as [e|id|], (mk_csr v) as [m|e'] eqn:Em; try contradiction.
-      + destruct Hr as (-> & Hx & ->). split; [exact Hwf'|]. apply R_finish_l; cbn; auto.
-      + destruct Hr as (Hid & Hcsr). rewrite Hid. unfold alloc; cbn. split.
-        * unfold wf; cbn. apply wfc_set; [now apply wfc_ext|].
-          pose proof (Hwf' tc) as (G1 & G2 & G3 & G4).
-          repeat split; cbn.
-          -- intros k id' Hin. destruct (G1 _ _ Hin) as (v' & e0 & Ha & Hb' & Hc).
-             exists v', e0. auto using nth_error_ext.
-          -- intros k id' Hin. destruct (G2 _ _ Hin) as (v' & e0 & Ha & Hb' & Hc).
-             exists v', e0. auto using nth_error_ext.
-          -- intros id' Hc. destruct (G3 _ Hc) as (v' & m' & Ha & Hb' & Hd).
-             exists v', m'. auto using nth_error_ext.
-          -- intros id' [= <-]. exists v, m.
-             split; [apply nth_error_ext; now apply nth_error_ext|]. split; [exact Em|].
-             split; [apply nth_error_new|]. rewrite Hcsr. discriminate.
-        * rewrite <- app_assoc. apply R_finish; auto. cbn. exists (csr2csc m).
-          split; [|apply nth_error_new]. rewrite app_assoc. apply nth_error_new.
+      + destruct Hres as (-> & ->). split; [exact Hwf|]. rstep (@nil V) (@nil V). reflexivity.
+      + destruct Hres as (Hid & Hcsr). rewrite Hid. unfold new_fresh. split.
+        * eapply (wf_set_attr (fst (new_fresh s1 (csr2csc m) false no_attrs)) tc v).
+          -- apply wf_new_fresh; [exact Hwf'|apply attr_ok_none].
+          -- cbn. rewrite Hx. apply nth_error_ext. now apply nth_error_ext.
+          -- split; cbn.
+             ++ rewrite Hcsr. intros id' [= <-]. exists m. split; [exact Em|now apply nth_error_ext].
+             ++ intros id' [= <-]. exists m. split; [exact Em|]. split; [apply nth_error_new|].
+                rewrite Hcsr. discriminate.
+        * eapply (R_step sc su _ _ (x ++ [csr2csc m]) [csr2csc m]);
+            [exact HR|cbn; now rewrite Hx, app_assoc|reflexivity|cbn; now rewrite Ho|reflexivity|].
+          cbn. exists (csr2csc m). split; apply nth_error_new.
+    - (* COO(t) / COO(t, fill_value=f) *)
+      set (v' := match f with Some x => refill v x | None => v end).
+      destruct (flag sc tc); [|exact (both_fresh sc su _ _ Hwf HR)].
+      assert (Hat' : attr_ok (vals sc ++ [v']) v' (attr sc tc)).
+      { apply attr_ok_ext. unfold v'. destruct f as [x|]; [|split; assumption].
+        split.
+        - intros id Hx. rewrite mk_csr_refill. auto.
+        - intros id Hx. rewrite mk_csr_refill. auto. }
+      destruct (match f with Some _ => cs_fill_resets site | None => cs_plain_resets site end) eqn:Efresh.
+      + unfold new_fresh. split.
+        * apply (wf_new_fresh sc v' true (attr sc tc) Hwf Hat').
+        * rstep [v'] [v']. exists v'. split; apply nth_error_new.
+      + assert (f = None) by (destruct f; [rewrite fill_resets in Efresh; discriminate|reflexivity]). subst f.
+        unfold new_shared, new_fresh. split.
+        * apply (wf_new_shared sc v tc (attr sc tc) Hwf Hvc Hat').
+        * rstep [v] [v]. exists v. split; apply nth_error_new.
+    - (* t.copy(), t.copy(deep=False) *)
+      exact (both_fresh sc su _ _ Hwf HR).
+    - (* return self *)
+      split; [exact Hwf|]. rstep (@nil V) (@nil V). eauto.
   Qed.
 
   Lemma run_ok h : forall sc su,
-    wf sc -> R sc su -> wf (run true h sc) /\ R (run true h sc) (run false h su).
+    wf sc -> R sc su -> allunc su -> wf (run h sc) /\ R (run h sc) (run h su).
   Proof.
-    induction h as [|[tg o] r IH]; intros sc su Hwf HR; cbn; [auto|].
-    destruct (step_ok sc su tg o Hwf HR) as [Hwf' HR']. now apply IH.
+    induction h as [|[tg o] r IH]; intros sc su Hwf HR HU; cbn; [auto|].
+    destruct (step_ok sc su tg o Hwf HR HU) as [Hwf' HR']. apply IH; auto using step_allunc.
   Qed.
 
   Lemma R_out_vals sc su : R sc su -> out_vals V KT KR sc = out_vals V KT KR su.
@@ -416,91 +564,94 @@ Section FamilyP.
     destruct Ho as (v & Ha & Hb). now rewrite Ha, Hb.
   Qed.
 
-  Lemma init_ok v0 : wf (init V KT KR v0) /\ R (init V KT KR v0) (init V KT KR v0).
+  Lemma init_wf b v0 : wf (init V KT KR b v0).
   Proof.
     split.
-    - intros t. apply empty_ok.
-    - split; cbn; [constructor|eauto].
+    - intros t v Hn. unfold obj_ok; cbn. repeat split; try lia; auto using ent_t_nil, ent_r_nil;
+        cbn; intros; discriminate.
+    - intros t t' v v' Hn Hn' _. cbn in Hn, Hn'.
+      destruct t as [|[|?]]; cbn in Hn; try discriminate.
+      destruct t' as [|[|?]]; cbn in Hn'; try discriminate. congruence.
   Qed.
 
+  (* the run from the cache-enabled root and the run from the same root without a cache *)
   Theorem family_transparent h v0 :
-    out_vals V KT KR (run true h (init V KT KR v0)) = out_vals V KT KR (run false h (init V KT KR v0)).
+    out_vals V KT KR (run h (init V KT KR true v0)) = out_vals V KT KR (run h (init V KT KR false v0)).
   Proof.
-    destruct (init_ok v0) as [Hwf HR]. apply R_out_vals. now apply run_ok.
+    apply R_out_vals. apply run_ok.
+    - apply init_wf.
+    - split; cbn; [constructor|eauto].
+    - intros t. reflexivity.
   Qed.
 
   (* the deques never exceed the capacity *)
   Definition bounded (s : st) : Prop :=
-    forall t, List.length (c_tr (caches s t)) <= cap /\ List.length (c_rs (caches s t)) <= cap.
+    forall c, List.length (d_tr (deqs s c)) <= cap /\ List.length (d_rs (deqs s c)) <= cap.
 
-  Lemma bounded_set (s : st) vs cs' o t c :
-    bounded s -> (forall i, i <> t -> cs' i = caches s i) -> cs' t = c ->
-    List.length (c_tr c) <= cap -> List.length (c_rs c) <= cap ->
-    bounded (finish V KT KR s vs cs' o).
+  Lemma bounded_fresh s v b a : bounded s -> bounded (fst (new_fresh s v b a)).
   Proof.
-    intros Hb Hother Ht H1 H2 t'. cbn. destruct (Nat.eq_dec t' t) as [->|Hne].
-    - now rewrite Ht.
-    - rewrite (Hother _ Hne). apply Hb.
+    intros Hb c. cbn. unfold updn. destruct (Nat.eqb c (ncell s)); [cbn; lia|apply Hb].
   Qed.
 
-  Lemma set_cache_other (cs : nat -> cache_t) t c i : i <> t -> set_cache KT KR cs t c i = cs i.
-  Proof. intros H. unfold set_cache. destruct (Nat.eqb_spec i t); congruence. Qed.
+  Lemma bounded_set s c d :
+    bounded s -> List.length (d_tr d) <= cap -> List.length (d_rs d) <= cap -> bounded (set_deq s c d).
+  Proof.
+    intros Hb H1 H2 c'. cbn. unfold updn. destruct (Nat.eqb c' c); [auto|apply Hb].
+  Qed.
 
-  Lemma set_cache_same (cs : nat -> cache_t) t c : set_cache KT KR cs t c t = c.
-  Proof. unfold set_cache. now rewrite Nat.eqb_refl. Qed.
-
-  Lemma csr_cached_bounded (s : st) t v :
-    bounded s ->
-    match csr_cached s t v with
-    | (_, _, cs) => forall t', List.length (c_tr (cs t')) <= cap /\ List.length (c_rs (cs t')) <= cap
-    end.
+  Lemma csr_cached_bounded (s : st) t v : bounded s -> bounded (snd (csr_cached s t v)).
   Proof.
     intros Hb. unfold csr_cached.
-    destruct (c_csr (caches s t)); [exact Hb|].
-    destruct (c_csc (caches s t)).
-    - destruct (nth_error (vals s) n); [|exact Hb]. unfold alloc; cbn.
-      intros t'. unfold set_cache. destruct (Nat.eqb_spec t' t) as [->|]; cbn; apply Hb.
-    - destruct (mk_csr v); [|exact Hb]. unfold alloc; cbn.
-      intros t'. unfold set_cache. destruct (Nat.eqb_spec t' t) as [->|]; cbn; apply Hb.
+    destruct (a_csr (attr s t)); [exact Hb|].
+    destruct (a_csc (attr s t)).
+    - destruct (nth_error (vals s) n); [|exact Hb]. exact (bounded_fresh s _ _ _ Hb).
+    - destruct (mk_csr v); [|exact Hb]. exact (bounded_fresh s _ _ _ Hb).
   Qed.
 
-  Lemma step_bounded mode s tg o : bounded s -> bounded (step mode s tg o).
+  Lemma step_bounded s tg o : bounded s -> bounded (step s tg o).
   Proof.
     intros Hb. unfold step.
     destruct (resolve V KT KR s tg) as [t|]; [|exact Hb].
     destruct (nth_error (vals s) t) as [v|]; [|exact Hb].
-    destruct o as [a|a| |].
-    - destruct (pre_t v a); try exact Hb. destruct mode; [|unfold alloc; exact Hb].
-      destruct (dq_lookup kt_eqb (c_tr (caches s t)) (lkey_t env)); [exact Hb|].
-      unfold alloc; cbn. eapply bounded_set; eauto using set_cache_other, set_cache_same; cbn.
+    destruct o as [a|a| | |f| |].
+    - destruct (pre_t v a); try exact Hb. destruct (flag s t); [|exact (bounded_fresh s _ _ _ Hb)].
+      destruct (dq_lookup kt_eqb (d_tr (deqs s (cell s t))) (lkey_t env)); [exact Hb|].
+      apply (bounded_set (fst (new_fresh s (comp_t v env) true no_attrs))); cbn.
+      + exact (bounded_fresh s _ _ _ Hb).
       + apply dq_append_length.
       + apply Hb.
-    - destruct (pre_r v a); try exact Hb. destruct mode; [|unfold alloc; exact Hb].
-      destruct (dq_lookup kr_eqb (c_rs (caches s t)) (lkey_r env)); [exact Hb|].
-      unfold alloc; cbn. eapply bounded_set; eauto using set_cache_other, set_cache_same; cbn.
+    - destruct (pre_r v a); try exact Hb. destruct (flag s t); [|exact (bounded_fresh s _ _ _ Hb)].
+      destruct (dq_lookup kr_eqb (d_rs (deqs s (cell s t))) (lkey_r env)); [exact Hb|].
+      apply (bounded_set (fst (new_fresh s (comp_r v env) true no_attrs))); cbn.
+      + exact (bounded_fresh s _ _ _ Hb).
       + apply Hb.
       + apply dq_append_length.
-    - destruct (guard_m v); [exact Hb|]. destruct mode.
-      + pose proof (csr_cached_bounded s t v Hb) as H. destruct (csr_cached s t v) as [[r vs] cs]. exact H.
-      + destruct (mk_csr v); [unfold alloc|]; exact Hb.
-    - destruct (guard_m v); [exact Hb|]. destruct mode.
-      + destruct (c_csc (caches s t)); [exact Hb|].
-        destruct (c_csr (caches s t)).
-        * destruct (nth_error (vals s) n); [|exact Hb]. unfold alloc; cbn.
-          intros t'. cbn. unfold set_cache. destruct (Nat.eqb_spec t' t) as [->|]; cbn; apply Hb.
-        * pose proof (csr_cached_bounded s t v Hb) as H. destruct (csr_cached s t v) as [[r vs] cs].
-          destruct r; try exact H. destruct (nth_error vs id); [|exact H].
-          intros t'. cbn. unfold set_cache. destruct (Nat.eqb_spec t' t) as [->|]; cbn; apply H.
-      + destruct (mk_csr v); [unfold alloc|]; exact Hb.
+    - destruct (guard_m v); [exact Hb|]. destruct (flag s t).
+      + pose proof (csr_cached_bounded s t v Hb) as H. destruct (csr_cached s t v) as [r s1]. exact H.
+      + destruct (mk_csr v); [exact (bounded_fresh s _ _ _ Hb)|exact Hb].
+    - destruct (guard_m v); [exact Hb|]. destruct (flag s t).
+      + destruct (a_csc (attr s t)); [exact Hb|].
+        destruct (a_csr (attr s t)).
+        * destruct (nth_error (vals s) n); [|exact Hb]. exact (bounded_fresh s _ _ _ Hb).
+        * pose proof (csr_cached_bounded s t v Hb) as H. destruct (csr_cached s t v) as [r s1]. cbn in H.
+          destruct r; try exact H. destruct (nth_error (vals s1) id); [|exact H].
+          exact (bounded_fresh s1 _ _ _ H).
+      + destruct (mk_csr v); [exact (bounded_fresh s _ _ _ Hb)|exact Hb].
+    - destruct (flag s t); [|exact (bounded_fresh s _ _ _ Hb)].
+      destruct (match f with Some _ => cs_fill_resets site | None => cs_plain_resets site end).
+      + exact (bounded_fresh s _ _ _ Hb).
+      + exact Hb.
+    - exact (bounded_fresh s _ _ _ Hb).
+    - exact Hb.
   Qed.
 
-  Theorem family_bounded mode h : forall s, bounded s -> bounded (run mode h s).
+  Theorem family_bounded h : forall s, bounded s -> bounded (run h s).
   Proof.
     induction h as [|[tg o] r IH]; intros s Hb; cbn; [exact Hb|]. apply IH, step_bounded, Hb.
   Qed.
 
-  Lemma init_bounded v0 : bounded (init V KT KR v0).
-  Proof. intros t; cbn; lia. Qed.
+  Lemma init_bounded b v0 : bounded (init V KT KR b v0).
+  Proof. intros c; cbn; lia. Qed.
 End FamilyP.
 
 (* ------------------------------------------------------------------ keys built from named locals *)
@@ -557,32 +708,41 @@ Proof. vm_compute. reflexivity. Qed.
 Lemma csr_csc_memo_shape_proof : attr_proto_ok tocsr_proto tocsc_proto = true.
 Proof. vm_compute. reflexivity. Qed.
 
+(* the copy constructor as the source has it now gives a re-filled copy a cache of its own *)
+Lemma coo_copy_site_ok : copy_site_ok coo_copy_site = true.
+Proof. vm_compute. reflexivity. Qed.
+
 Theorem coo_cache_transparent :
-  forall (V W AT AR : Type) (weqb : W -> W -> bool),
+  forall (V W AT AR F : Type) (weqb : W -> W -> bool),
     (forall a b, weqb a b = true -> a = b) ->
   forall (cap : nat)
          (pre_t : V -> AT -> pre (env W)) (g_t : V -> list W -> V)
          (pre_r : V -> AR -> pre (env W)) (g_r : V -> list W -> V)
          (guard_m : V -> option exc) (mk_csr : V -> res V) (csr2csc csc2csr : V -> V)
-         (h : list (target * op AT AR)) (v0 : V),
+         (refill : V -> F -> V),
+    (forall v f, mk_csr (refill v f) = mk_csr v) ->
+  forall (h : list (target * op AT AR F)) (v0 : V),
     out_vals V (list W) (list W)
-      (coo_run V W AT AR weqb cap pre_t g_t pre_r g_r guard_m mk_csr csr2csc csc2csr true h (init V _ _ v0))
+      (coo_run V W AT AR F weqb cap pre_t g_t pre_r g_r guard_m mk_csr csr2csc csc2csr refill h (init V _ _ true v0))
     = out_vals V (list W) (list W)
-      (coo_run V W AT AR weqb cap pre_t g_t pre_r g_r guard_m mk_csr csr2csc csc2csr false h (init V _ _ v0)).
+      (coo_run V W AT AR F weqb cap pre_t g_t pre_r g_r guard_m mk_csr csr2csc csc2csr refill h (init V _ _ false v0)).
 Proof.
   intros. unfold coo_run. apply family_transparent.
   - intros v e0 e Hk. now apply (proto_key_determines_result W weqb H transpose_proto V g_t transpose_proto_ok).
   - intros v e0 e Hk. now apply (proto_key_determines_result W weqb H reshape_proto V g_r reshape_proto_ok).
+  - exact coo_copy_site_ok.
+  - assumption.
 Qed.
 
 Theorem coo_cache_bounded :
-  forall (V W AT AR : Type) (weqb : W -> W -> bool) (cap : nat)
+  forall (V W AT AR F : Type) (weqb : W -> W -> bool) (cap : nat)
          (pre_t : V -> AT -> pre (env W)) (g_t : V -> list W -> V)
          (pre_r : V -> AR -> pre (env W)) (g_r : V -> list W -> V)
          (guard_m : V -> option exc) (mk_csr : V -> res V) (csr2csc csc2csr : V -> V)
-         (mode : bool) (h : list (target * op AT AR)) (v0 : V) (t : nat),
-    let s := coo_run V W AT AR weqb cap pre_t g_t pre_r g_r guard_m mk_csr csr2csc csc2csr mode h (init V _ _ v0) in
-    (List.length (c_tr (caches s t)) <= cap /\ List.length (c_rs (caches s t)) <= cap)%nat.
+         (refill : V -> F -> V)
+         (mode : bool) (h : list (target * op AT AR F)) (v0 : V) (c : nat),
+    let s := coo_run V W AT AR F weqb cap pre_t g_t pre_r g_r guard_m mk_csr csr2csc csc2csr refill h (init V _ _ mode v0) in
+    (List.length (d_tr (deqs s c)) <= cap /\ List.length (d_rs (deqs s c)) <= cap)%nat.
 Proof.
   intros. subst s. unfold coo_run. apply family_bounded. apply init_bounded.
 Qed.
@@ -615,27 +775,44 @@ Proof.
   intros H. apply andb_true_iff in H. destruct H as [H1 H2]. apply Z.eqb_eq in H1. subst. f_equal. now apply IH.
 Qed.
 
-(* a concrete family: values are shapes; capacity 1.  Call 2 returns the identical object as call 1
-   (id 1); key [2] evicts key [1]; call 4 recomputes (a new object, id 3); the uncached twin creates a
-   new object per call; the values agree call by call. *)
+(* a concrete family: values are (fill, payload); capacity 1.  Call 1 returns the identical object as
+   call 0; key [2] evicts key [1]; call 3 recomputes; the plain copy (call 9) shares the root's memo: its
+   transpose (call 10) is the object the root's last transpose returned; the re-filled copy (call 11)
+   starts with an empty memo (call 12 creates a new object) but inherits _csc, and its tocsc raises
+   because of the fill value (call 13); x.copy() (call 14) does not cache at all: calls 15 and 16 return
+   two different new objects.  The uncached twin creates a new object per call; the
+   values agree call by call. *)
+Definition ex_pre (_ : Z * list Z) (a : list Z) : pre (env (list Z)) :=
+  match a with [] => PSelf | _ => PGo (fun _ => a) end.
+Definition ex_hist : list (target * op (list Z) (list Z) Z) :=
+  [(TRoot, OpT [1]); (TRoot, OpT [1]); (TRoot, OpT [2]); (TRoot, OpT [1]); (TOut 0, OpR [5]);
+   (TOut 1, OpR [5]); (TRoot, OpCsc); (TRoot, OpCsr); (TRoot, OpT []);
+   (TRoot, OpCopy None); (TOut 9, OpT [1]); (TRoot, OpCopy (Some 5)); (TOut 11, OpT [1]); (TOut 11, OpCsc);
+   (TRoot, OpPickle); (TOut 14, OpT [1]); (TOut 14, OpT [1]); (TOut 14, OpSame)].
 Definition ex_family (mode : bool) :=
-  coo_run (list Z) (list Z) (list Z) (list Z) zs_eqb 1%nat
-          (fun _ a => match a with [] => PSelf | _ => PGo (fun _ => a) end) (fun v k => List.concat k ++ v)
-          (fun _ a => match a with [] => PSelf | _ => PGo (fun _ => a) end) (fun v k => v ++ List.concat k)
-          (fun _ => None) (fun v => Ok v) (fun m => 0 :: m) (fun m => m)
-          mode
-          [(TRoot, OpT [1]); (TRoot, OpT [1]); (TRoot, OpT [2]); (TRoot, OpT [1]); (TOut 0, OpR [5]);
-           (TOut 1, OpR [5]); (TRoot, OpCsc); (TRoot, OpCsr); (TRoot, OpT [])]
-          (init (list Z) _ _ [7]).
+  coo_run (Z * list Z) (list Z) (list Z) (list Z) Z zs_eqb 1%nat
+          ex_pre (fun v k => (fst v, List.concat k ++ snd v))
+          ex_pre (fun v k => (fst v, snd v ++ List.concat k))
+          (fun v => if fst v =? 0 then None else Some ValueError) (fun v => Ok (0, snd v))
+          (fun m => (fst m, 0 :: snd m)) (fun m => m) (fun v f => (f, snd v))
+          ex_hist (init (Z * list Z) _ _ mode (0, [7])).
+
+Example ex_refill_hypothesis_satisfiable :
+  forall (v : Z * list Z) (f : Z), (fun v => @Ok (Z * list Z) (0, snd v)) ((fun v f => (f, snd v)) v f)
+                                   = (fun v => Ok (0, snd v)) v.
+Proof. reflexivity. Qed.
 
 Example ex_family_identities :
   outs (ex_family true)
-  = [OObj 1; OObj 1; OObj 2; OObj 3; OObj 4; OObj 4; OObj 6; OObj 5; OObj 0]%nat
+  = [OObj 1; OObj 1; OObj 2; OObj 3; OObj 4; OObj 4; OObj 6; OObj 5; OObj 0;
+     OObj 7; OObj 3; OObj 8; OObj 9; ORaise ValueError; OObj 10; OObj 11; OObj 12; OObj 10]%nat
   /\ outs (ex_family false)
-  = [OObj 1; OObj 2; OObj 3; OObj 4; OObj 5; OObj 6; OObj 7; OObj 8; OObj 0]%nat.
+  = [OObj 1; OObj 2; OObj 3; OObj 4; OObj 5; OObj 6; OObj 7; OObj 8; OObj 0;
+     OObj 9; OObj 10; OObj 11; OObj 12; ORaise ValueError; OObj 13; OObj 14; OObj 15; OObj 13]%nat.
 Proof. vm_compute. split; reflexivity. Qed.
 
 Example ex_family_values :
   out_vals _ _ _ (ex_family true) = out_vals _ _ _ (ex_family false)
-  /\ nth_error (out_vals _ _ _ (ex_family true)) 4 = Some (VVal [1; 7; 5]).
-Proof. vm_compute. split; reflexivity. Qed.
+  /\ nth_error (out_vals _ _ _ (ex_family true)) 4 = Some (VVal (0, [1; 7; 5]))
+  /\ nth_error (out_vals _ _ _ (ex_family true)) 12 = Some (VVal (5, [1; 7])).
+Proof. vm_compute. repeat split; reflexivity. Qed.
